@@ -118,6 +118,16 @@ func (e *Enc) joinPreds(fr *frame, b *ssa.BasicBlock) *bstate {
 			if c.Kind == "alloc" && len(edges) == 1 && old != "" {
 				e.assert(app(">=", nv, old))
 			}
+			if c.Kind == "alloc" {
+				e.assert(app(">=", nv, e.entryAlloc))
+			}
+			// Components outside the declared frame are only ever written at objects
+			// allocated by this function (a frame obligation at every such store), so at
+			// any loop head they still agree with the entry heap on pre-existing objects.
+			if !fr.inlined && e.C != nil && e.C.HasMod && !e.inFrame(c) && strings.HasPrefix(c.Sort, "(Array Int ") && c.Kind != "alloc" {
+				e.W.needRoot()
+				e.assert(fmt.Sprintf("(forall ((r Int)) (! (=> (<= (root r) %s) (= (select %s r) (select %s@0 r))) :pattern ((select %s r))))", e.entryAlloc, nv, c.Name, nv))
+			}
 			continue
 		}
 		same := true
@@ -146,6 +156,10 @@ func (e *Enc) joinPreds(fr *frame, b *ssa.BasicBlock) *bstate {
 			break
 		}
 		e.encodePhi(fr, p, b, edges, li != nil)
+		if li != nil {
+			// every live reference was allocated before now
+			e.assumeAllocated(cur, e.vals[p])
+		}
 	}
 	if li != nil {
 		e.assumeInvariant(fr, li, cur)
@@ -175,7 +189,7 @@ func (e *Enc) encodePhi(fr *frame, p *ssa.Phi, b *ssa.BasicBlock, edges []predEd
 	e.vals[p] = v
 	e.assert(e.typeInv(name, p.Type()))
 	if header {
-		return // havocked; constrained by the invariant only
+		return // havocked; constrained by the invariant only (and allocatedness, see joinPreds)
 	}
 	for _, ed := range edges {
 		for i, pr := range b.Preds {
@@ -234,13 +248,129 @@ func (e *Enc) invEnv(fr *frame, li *loopInfo, st *bstate, subst map[ssa.Value]ss
 	return env
 }
 
-func (e *Enc) autoInvariants(fr *frame, li *loopInfo, st *bstate, subst map[ssa.Value]ssa.Value) []string {
-	return nil
+// autoInvariants guesses bounds for simple counting loops (range loops and
+// "for i := c; i < n; i++"). They are checked like any other invariant.
+func (e *Enc) autoInvariants(fr *frame, li *loopInfo, subst map[ssa.Value]ssa.Value) []string {
+	var out []string
+	h := li.header
+	for _, in := range h.Instrs {
+		p, ok := in.(*ssa.Phi)
+		if !ok {
+			break
+		}
+		if _, isSl := p.Type().Underlying().(*types.Slice); isSl {
+			if e.localSlicePhi(li, p) {
+				pv := p
+				var t string
+				if subst != nil {
+					if r, ok := subst[pv]; ok {
+						t = e.val(r).T
+					}
+				}
+				if t == "" {
+					t = e.val(p).T
+				}
+				e.W.needRoot()
+				out = append(out, sOr(sEq(app("sbase", t), "0"), app(">", app("root", app("sbase", t)), e.entryAlloc)))
+			}
+			continue
+		}
+		if _, _, isInt := intBits(p.Type()); !isInt {
+			continue
+		}
+		var init *int64
+		var step ssa.Value
+		okShape := true
+		for i, pr := range h.Preds {
+			if isBackEdge(pr, h) {
+				if step != nil && step != p.Edges[i] {
+					okShape = false
+				}
+				step = p.Edges[i]
+			} else {
+				c, isC := constInt(p.Edges[i])
+				if !isC || (init != nil && *init != c) {
+					okShape = false
+				} else {
+					init = &c
+				}
+			}
+		}
+		if !okShape || init == nil || step == nil {
+			continue
+		}
+		bo, ok := step.(*ssa.BinOp)
+		if !ok || bo.Op != token.ADD || bo.X != p {
+			continue
+		}
+		if k, isC := constInt(bo.Y); !isC || k != 1 {
+			continue
+		}
+		cur := func(v ssa.Value) string {
+			if subst != nil {
+				if r, ok := subst[v]; ok {
+					v = r
+				}
+			}
+			return e.val(v).T
+		}
+		pv := cur(p)
+		out = append(out, app("<=", intLit(*init), pv))
+		// upper bound from a guard "x < Y" with Y defined outside the loop
+		outside := func(v ssa.Value) bool {
+			switch y := v.(type) {
+			case *ssa.Const, *ssa.Parameter, *ssa.FreeVar:
+				return true
+			case ssa.Instruction:
+				return !li.body[y.Block()]
+			}
+			return false
+		}
+		guard := func(b *ssa.BasicBlock) (x, y ssa.Value, ok bool) {
+			if len(b.Instrs) == 0 {
+				return nil, nil, false
+			}
+			iff, isIf := b.Instrs[len(b.Instrs)-1].(*ssa.If)
+			if !isIf {
+				return nil, nil, false
+			}
+			c, isB := iff.Cond.(*ssa.BinOp)
+			if !isB || c.Op != token.LSS || !li.body[b.Succs[0]] || li.body[b.Succs[1]] {
+				return nil, nil, false
+			}
+			return c.X, c.Y, true
+		}
+		// shape A/C: guard in the header
+		if x, y, ok := guard(h); ok && outside(y) {
+			if x == step {
+				out = append(out, sOr(app("<", pv, e.val(y).T), sEq(pv, intLit(*init))))
+			} else if x == p {
+				out = append(out, sOr(app("<=", pv, e.val(y).T), sEq(pv, intLit(*init))))
+			}
+			continue
+		}
+		// shape B: rotated loop, guard in the latch
+		for _, lb := range li.backs {
+			if x, y, ok := guard(lb); ok && outside(y) && x == step && b0(lb, h) {
+				out = append(out, sOr(app("<", pv, e.val(y).T), sEq(pv, intLit(*init))))
+				break
+			}
+		}
+	}
+	return out
 }
+
+func b0(latch, h *ssa.BasicBlock) bool { return latch.Succs[0] == h }
 
 func (e *Enc) checkInvariant(fr *frame, li *loopInfo, from *ssa.BasicBlock, st *bstate, kind string) {
 	cls := e.loopClauses(li)
 	subst := phiSubst(li, from)
+	for i, t := range e.autoInvariants(fr, li, subst) {
+		o := e.oblige(st, kind, fmt.Sprintf("loop%d.auto%d", li.ordinal, i), t, li.header.Instrs[0].Pos())
+		if o != nil {
+			o.Detail = "automatic counting-loop bound"
+		}
+	}
 	for i, cl := range cls {
 		env := e.invEnv(fr, li, st, subst)
 		t, err := env.formula(cl.Expr)
@@ -260,6 +390,9 @@ func (e *Enc) checkInvariant(fr *frame, li *loopInfo, from *ssa.BasicBlock, st *
 }
 
 func (e *Enc) assumeInvariant(fr *frame, li *loopInfo, st *bstate) {
+	for _, t := range e.autoInvariants(fr, li, nil) {
+		e.assume(st.reach, t)
+	}
 	for _, cl := range e.loopClauses(li) {
 		env := e.invEnv(fr, li, st, nil)
 		t, err := env.formula(cl.Expr)
@@ -322,6 +455,9 @@ func (e *Enc) checkPost(fr *frame, st *bstate, rs []Val, ret *ssa.Return) {
 		return
 	}
 	for i, cl := range e.C.Ensures {
+		if cl.Assumed {
+			continue
+		}
 		env := e.newSpecEnv(fr, st)
 		env.entryOnly = true
 		env.results = rs
@@ -475,7 +611,7 @@ func (e *Enc) encodeInstr(fr *frame, b *ssa.BasicBlock, idx int, in ssa.Instruct
 		c := e.W.elemComp(el)
 		old := e.heapVar(st, c)
 		n := e.newHeapVersion(st, c)
-		e.assert(sEq(n, app("store", old, r, "((as const (Array Int "+e.W.sortOf(el)+")) "+e.W.zero(el)+")")))
+		e.assert(sEq(n, app("store", old, r, e.W.constArray(e.W.sortOf(el), e.W.zero(el)))))
 		e.setVal(x, Val{T: app("mk-slice", r, "0", ln, cp)})
 	case *ssa.MakeMap:
 		mt := x.Type().Underlying().(*types.Map)
@@ -501,15 +637,13 @@ func (e *Enc) encodeInstr(fr *frame, b *ssa.BasicBlock, idx int, in ssa.Instruct
 		e.encodeCall(fr, st, x, &x.Call, x)
 	case *ssa.Defer:
 		fr.defers = append(fr.defers, x)
-		if fr.loops != nil {
-			for _, li := range fr.loops {
-				if li.body[b] {
-					e.note("defer inside loop (unsupported): " + x.String())
-				}
+		for _, li := range fr.loops {
+			if li.body[b] {
+				e.note("defer inside loop (unsupported): " + x.String())
 			}
 		}
 	case *ssa.RunDefers:
-		e.runDefers(fr, st, x.Pos())
+		e.runDefersAt(fr, st, b)
 	case *ssa.Go:
 		e.note("goroutine spawned (not modelled): " + x.Call.String())
 		// spawned code may write anything it can reach: havoc everything
@@ -598,6 +732,8 @@ func (e *Enc) encodeLookup(st *bstate, x *ssa.Lookup) {
 		r := e.fresh("lookup", e.W.sortOf(t.Elem()))
 		e.assert(sEq(r, val))
 		e.assert(e.typeInv(r, t.Elem()))
+		e.assert(sImp(in, e.mapValueInv(t, k, r)))
+		e.assumeAllocated(st, Val{T: r, Typ: t.Elem()})
 		if x.CommaOk {
 			e.setVal(x, Val{Tup: []Val{{T: r, Typ: t.Elem()}, {T: in, Typ: types.Typ[types.Bool]}}})
 		} else {
@@ -612,6 +748,9 @@ func (e *Enc) encodeMapUpdate(st *bstate, x *ssa.MapUpdate) {
 	v := e.asTerm(e.val(x.Value))
 	mt := x.Map.Type().Underlying().(*types.Map)
 	e.oblige(st, "nil-map-write", e.anchor(x.Pos(), "map update"), sNot(sEq(m, "0")), x.Pos())
+	if inv := e.mapValueInv(mt, k, v); inv != "true" {
+		e.oblige(st, "map-inv", e.anchor(x.Pos(), "map update"), inv, x.Pos())
+	}
 	d, vc, l := e.W.mapComps(mt)
 	od, ov, ol := e.heapVar(st, d), e.heapVar(st, vc), e.heapVar(st, l)
 	e.frameCheck(st, d, []string{m}, x.Pos())
@@ -1054,16 +1193,69 @@ func (e *Enc) encodeTypeAssert(st *bstate, x *ssa.TypeAssert) {
 }
 
 func (e *Enc) encodeNext(fr *frame, st *bstate, x *ssa.Next) {
-	// generic fallback: unconstrained iteration result
-	e.note("range over map/string iterated with unconstrained Next")
-	e.setVal(x, e.freshVal(st, x.Type(), "next"))
+	rng, _ := x.Iter.(*ssa.Range)
+	if x.IsString || rng == nil {
+		e.note("range over string iterated with unconstrained Next")
+		e.setVal(x, e.freshVal(st, x.Type(), "next"))
+		return
+	}
+	mt, ok := rng.X.Type().Underlying().(*types.Map)
+	if !ok {
+		e.setVal(x, e.freshVal(st, x.Type(), "next"))
+		return
+	}
+	// Sound over-approximation of map iteration: each step yields some key that is
+	// currently present together with its current value (order, coverage and
+	// no-repetition are not modelled).
+	m := e.val(rng).T
+	okv := e.fresh("next.ok", "Bool")
+	k := e.fresh("next.k", e.W.sortOf(mt.Key()))
+	v := e.fresh("next.v", e.W.sortOf(mt.Elem()))
+	d, vc, _ := e.W.mapComps(mt)
+	e.assert(e.typeInv(k, mt.Key()))
+	e.assert(e.typeInv(v, mt.Elem()))
+	e.assume(st.reach, sImp(okv, sAnd(sNot(sEq(m, "0")), app("select", app("select", e.heapVar(st, d), m), k),
+		sEq(v, app("select", app("select", e.heapVar(st, vc), m), k)))))
+	vv := Val{T: v, Typ: mt.Elem()}
+	e.assumeAllocated(st, vv)
+	e.assume(st.reach, sImp(okv, e.mapValueInv(mt, k, v)))
+	e.setVal(x, Val{Tup: []Val{{T: okv, Typ: types.Typ[types.Bool]}, {T: k, Typ: mt.Key()}, vv}})
 }
 
-func (e *Enc) runDefers(fr *frame, st *bstate, pos token.Pos) {
+// runDefersAt executes, in reverse order, the deferred calls whose Defer
+// instruction dominates block b. A Defer that may or may not have executed on the
+// way to b is outside the subset: everything is havocked.
+func (e *Enc) runDefersAt(fr *frame, st *bstate, b *ssa.BasicBlock) {
 	for i := len(fr.defers) - 1; i >= 0; i-- {
 		d := fr.defers[i]
-		e.encodeCall(fr, st, nil, &d.Call, d)
+		if d.Block() == b || d.Block().Dominates(b) {
+			e.encodeCall(fr, st, nil, &d.Call, d)
+			continue
+		}
+		// conditional defer: reachable from d's block?
+		if reaches(d.Block(), b) {
+			e.note("conditionally executed defer (havoc): " + d.String())
+			e.havocAll(st, "conditional defer")
+		}
 	}
+}
+
+func reaches(from, to *ssa.BasicBlock) bool {
+	seen := map[*ssa.BasicBlock]bool{}
+	stack := []*ssa.BasicBlock{from}
+	for len(stack) > 0 {
+		x := stack[len(stack)-1]
+		stack = stack[:len(stack)-1]
+		if x == to {
+			return true
+		}
+		if seen[x] {
+			continue
+		}
+		seen[x] = true
+		stack = append(stack, x.Succs...)
+	}
+	return false
 }
 
 func trimPkg(s string) string {
@@ -1071,4 +1263,68 @@ func trimPkg(s string) string {
 		return s[i+1:]
 	}
 	return s
+}
+
+// mapValueInv returns the conjunction of the declared value invariants of map type mt
+// instantiated at key k and value v.
+func (e *Enc) mapValueInv(mt *types.Map, k, v string) string {
+	var cs []string
+	for _, mi := range e.P.reg.MapInvs {
+		pkg := e.P.tpkgs[mi.Pkg]
+		t, err := e.evalType(mi.TypeText, pkg)
+		if err != nil {
+			e.errors = append(e.errors, fmt.Sprintf("%s: mapvalues: %v", mi.Src, err))
+			continue
+		}
+		if !types.Identical(t.Underlying(), mt) {
+			continue
+		}
+		env := e.newSpecEnv(nil, nil)
+		env.pkg = pkg
+		env.binders["k"] = SVal{T: k, Typ: mt.Key(), Sort: e.W.sortOf(mt.Key())}
+		env.binders["v"] = SVal{T: v, Typ: mt.Elem(), Sort: e.W.sortOf(mt.Elem())}
+		f, err := env.formula(mi.Expr)
+		if err != nil {
+			e.errors = append(e.errors, fmt.Sprintf("%s: mapvalues: %v", mi.Src, err))
+			continue
+		}
+		cs = append(cs, f)
+	}
+	return sAnd(cs...)
+}
+
+// localSlicePhi: the slice carried by header phi p starts as nil or a slice made by
+// this function and is only ever extended with append (so it never aliases memory
+// that existed at function entry).
+func (e *Enc) localSlicePhi(li *loopInfo, p *ssa.Phi) bool {
+	seen := map[ssa.Value]bool{}
+	var ok func(v ssa.Value) bool
+	ok = func(v ssa.Value) bool {
+		if seen[v] {
+			return true
+		}
+		seen[v] = true
+		switch x := v.(type) {
+		case *ssa.Const:
+			return x.Value == nil
+		case *ssa.MakeSlice:
+			return true
+		case *ssa.Phi:
+			for _, ed := range x.Edges {
+				if !ok(ed) {
+					return false
+				}
+			}
+			return true
+		case *ssa.Call:
+			if b, isB := x.Call.Value.(*ssa.Builtin); isB && b.Name() == "append" {
+				return ok(x.Call.Args[0])
+			}
+		case *ssa.Slice:
+			// s[:0] style reslicing of a local slice keeps the base
+			return ok(x.X)
+		}
+		return false
+	}
+	return ok(p)
 }
